@@ -15,7 +15,7 @@ import numpy as np
 import scipy.sparse as sps
 
 PROP = "C37"
-N = {"quick": 200, "thorough": 6000}
+N = {"quick": 200, "thorough": 4000}
 WORKERS = {"quick": 3, "thorough": 16}
 TIMEOUT = {"quick": 900, "thorough": 640}
 CASE_TIMEOUT = 120.0
